@@ -47,3 +47,59 @@ def to_text(op, generic: bool = False) -> str:
     s = io.StringIO()
     Printer(s, print_generic_format=generic).print_op(op)
     return s.getvalue()
+
+
+_CTX = None
+
+
+def shared_ctx():
+    """One AccContext per process (parsing only loads dialects into it)."""
+    global _CTX
+    if _CTX is None:
+        _CTX = fresh_ctx()
+    return _CTX
+
+
+def get_pass(name: str, **kwargs):
+    """Instantiate a registered snax-opt pass by its pipeline name (same class snax-opt -p resolves)."""
+    from snaxc.transforms import get_all_snax_passes
+    from xdsl.transforms import get_all_passes
+
+    table = get_all_snax_passes()
+    if name not in table:
+        table = get_all_passes()
+    return table[name]()(**kwargs)
+
+
+def run_pass(mod, name: str, ctx=None, **kwargs):
+    get_pass(name, **kwargs).apply(ctx or shared_ctx(), mod)
+    return mod
+
+
+class PassTimeout(Exception):
+    pass
+
+
+class time_limit:
+    """Wall-clock guard around code under test that may not terminate (SIGALRM; main thread only).
+    A hit is 'inconclusive' (Reject), never a violation."""
+
+    def __init__(self, seconds: float):
+        self.seconds = seconds
+
+    def __enter__(self):
+        import signal
+
+        def handler(signum, frame):
+            raise PassTimeout(f"no result within {self.seconds}s")
+
+        self._old = signal.signal(signal.SIGALRM, handler)
+        signal.setitimer(signal.ITIMER_REAL, self.seconds)
+        return self
+
+    def __exit__(self, *exc):
+        import signal
+
+        signal.setitimer(signal.ITIMER_REAL, 0)
+        signal.signal(signal.SIGALRM, self._old)
+        return False
